@@ -38,4 +38,15 @@ theorem value_dispatch : Gen.SqlEscape.valueDispatch =
 theorem tuple_shape : Gen.SqlEscape.tupleLits = ["", "expected %d values for table schema, got %d", "(", "NULL", "", ")"] ∧
     Gen.SqlEscape.tupleRunes = [44] := by decide
 
+/-- CSV field layer: the writer quotes when the *first rune* is `unicode.IsSpace` (decoded with
+`utf8.DecodeRuneInString`), the reader trims with the same `unicode.IsSpace`; an unquoted empty field
+is NULL; the special strings and the quote doubling are the model's. -/
+theorem csv_shape :
+    Gen.SqlEscape.csvNeedsQuotesCalls = ["strings.Contains", "strings.ContainsAny", "utf8.DecodeRuneInString", "unicode.IsSpace"] ∧
+    Gen.SqlEscape.csvNeedsQuotesLits = ["", "\\.", "\"\x0d\n"] ∧
+    Gen.SqlEscape.csvWriteRowLits = ["", "\"\x0d\n", "\"\"", "\x0d\n", "\x0d\n"] ∧
+    Gen.SqlEscape.csvReaderTrims = ["rs.line by unicode.IsSpace"] ∧
+    Gen.SqlEscape.csvParseFieldKeep = ["len(field) != 0"] ∧
+    Gen.SqlEscape.csvParseQuotedBytes = [34, 34, 34] := by decide
+
 end DoltVerif.Tie.SqlEscape
